@@ -6,6 +6,7 @@ import lexdef
 import lexcheck
 from lexcheck import Case, run_model, run_impl, lines_of, PROJ
 import pipeline
+import gencode
 from pipeline import compare_artifacts
 
 
@@ -30,8 +31,14 @@ class Ctx:
                     self.known_hits.append(key)
                     print("KNOWN-FINDING: property=%s %s" % (self.prop, k["what"]), flush=True)
                 return
-        if len(self.violations) >= 8:
-            return
+        # at most 8 violations with a failing input; one report per stage that no longer checks
+        if has_input:
+            if sum(1 for v in self.violations if v[2]) >= 8:
+                return
+        else:
+            if any(v[0] == key and not v[2] for v in self.violations) or sum(1 for v in self.violations if not v[2]) >= 6:
+                self.suppressed = getattr(self, "suppressed", 0) + 1
+                return
         data = dict(data, property=self.prop, key=key, seed=self.seed, tier=self.tier,
                     kind="failing-input" if has_input else "no-failing-input-found")
         path = write_replay(self.prop, data)
@@ -50,7 +57,7 @@ class Ctx:
             for k in ("obligations", "discharged"):
                 cov.pop(k, None)
         write_evidence(self.prop, self.tier, self.seed, level, cov, wall, len(self.violations), self.assumptions)
-        for key, path, has_input in self.violations:
+        for key, path, has_input in sorted(self.violations, key=lambda v: not v[2]):
             print("VIOLATION property=%s replay=%s%s" % (self.prop, path, "" if has_input else " no-failing-input-found"),
                   flush=True)
         log("%s %s: %d obligations, %d discharged, %d programs, %d evaluations, %d violations, %.1fs"
@@ -82,7 +89,7 @@ ASSUMPTIONS = [
 def coqchk(ctx):
     t0 = time.time()
     # the whole development (every property's cone is inside it): independent re-check of all .vo files
-    mods = ["EndToEndModel", "LexSpecProofs", "LexSpecFacts", "RuntimeLemmas", "DefParserProofs", "CharGenProofs",
+    mods = ["EndToEndModel", "SubsetTermination", "ScopingFacts", "LexSpecProofs", "LexSpecFacts", "RuntimeLemmas", "DefParserProofs", "CharGenProofs",
             "DriverProofs", "CharClassProofs", "ClassAlgProofs", "Instance"]
     r = run(["coqchk", "-silent", "-o", "-Q", "theories", "LexVerif", "-Q", "gen", "LexVerif.Gen"]
             + ["LexVerif.%s" % m for m in mods], cwd=COQ, timeout=3000)
@@ -105,15 +112,20 @@ CONE = {}
 # =====================================================================================================
 
 STAGES = {
-    "C01": {"nfa", "dfa", "flags", "joined", "simplified", "templates"},
-    "C06": {"templates"}, "C07": {"templates"}, "C08": {"templates"}, "C09": {"templates"}, "C10": {"templates"},
+    "C01": {"nfa", "dfa", "flags", "joined", "simplified", "templates", "gencode"},
+    "C06": {"templates", "gencode"}, "C07": {"templates", "gencode"}, "C08": {"templates", "gencode"},
+    "C09": {"templates", "gencode"}, "C10": {"templates", "gencode"},
     "C02": {"nfa", "dfa", "tables"},
-    "C03": {"joined", "simplified", "dispatch", "ruleset-count"},
-    "C04": {"nfa", "dfa", "ctx-count", "tables"},
-    "C05": {"dfa", "simplified", "templates"},
+    "C03": {"joined", "simplified", "dispatch", "ruleset-count", "gencode"},
+    "C04": {"nfa", "dfa", "ctx-count", "tables", "gencode"},
+    "C05": {"dfa", "simplified", "templates", "gencode"},
     "C11": {"tables"},
-    "C12": {"nfa", "dfa", "flags", "joined", "simplified", "dispatch", "ruleset-count", "ctx-count", "tables"},
+    "C12": {"nfa", "dfa", "flags", "joined", "simplified", "dispatch", "ruleset-count", "ctx-count", "tables", "gencode"},
+    "C14": {"gencode"}, "C15": {"gencode"},
 }
+# "gencode": harness/gencode.py translates the token stream the macro produced into the syntax trees of
+# GenCode.v and compares them with GenCode.gen_program run (by the extracted model) on the implementation's own
+# simplified DFA / entry map / context automata; GenCodeProofs.v gives those trees their meaning
 
 
 # which certificate fields gate which property (ClosedChecker / NfaSem checkers, proved sound)
@@ -225,6 +237,11 @@ def lexer_check(ctx, gen_opts, ndefs, ninputs, projs, ctors=(0,), clone=False, n
         if c.model.get("modelcerts") is False and prop in CERT_PROPS:
             ctx.broken("model-certificate", "certs_ok_b fails on the model's own automata (hypothesis of lexer_correct)", describe(c))
         art = compare_artifacts(c.impl, c.model, stages) if stages else {}
+        if "gencode" in stages and getattr(c, "gcode", None) is not None and c.impl.get("tokens"):
+            gp = gencode.compare(c.impl["tokens"], c.name, c.gcode, c.gswitch, expected_action_kinds(c.d))
+            dist["generated_code_translated"] = dist.get("generated_code_translated", 0) + 1
+            if gp:
+                art.setdefault("gencode", []).extend(gp[:3])
         if c.impl.get("harmless_differences"):
             dist["renumberings_tolerated"] = dist.get("renumberings_tolerated", 0) + 1
         stream_viol = False
@@ -306,6 +323,16 @@ def lexer_check(ctx, gen_opts, ndefs, ninputs, projs, ctors=(0,), clone=False, n
     if len(usable) < max(1, ndefs // 4):
         ctx.broken("generator", "only %d usable definitions out of %d" % (len(usable), len(cases)))
     return usable
+
+
+def expected_action_kinds(d):
+    """which sugar form of the semantic action each rule uses, by action index (= rule order)"""
+    out = {}
+    for i, (_, r) in enumerate(lexdef.iter_rules(d)):
+        k = r['kind'].split(":")
+        out[i] = {"skip": "skip", "simple": "simple", "inf": "infallible", "fal": "fallible"}.get(
+            k[0], "fallible" if (k[0] == "alt" and k[1] == "1") else "infallible")
+    return out
 
 
 def regex_has(r, kinds):
